@@ -51,10 +51,12 @@ def seg (t : String) (pi : Option Int := none) : Seg := { text := strBytes t, pi
 example : NodeWF exNode = true ∧ WT exNode exVal = true := by decide
 /-- … on which the repaired model finds the element. -/
 example : (getM GenCfg.fixed exNode .ptr exVal [seg "M", seg "a"] == .some "int" (.int 7)) = true := by decide
-/-- The model of the current tree is *not* accepted everywhere: with the path `L.-1` it panics
-(known finding `negative-index`), with `L.5` it hands out the enclosing slice (`container-fallthrough`). -/
+/-- The tree as it was at the pinned commit is not accepted: with the path `L.-1` it panicked (finding
+`negative-index`, since repaired by a `fix:` commit). The model of the current tree still is not accepted
+everywhere: with `L.5` it hands out the enclosing slice (`container-fallthrough`, open). -/
 theorem repo_not_correct :
-    getAccepts (nav exNode exVal [seg "L", seg "-1" (some (-1))]) (getM GenCfg.repo exNode .ptr exVal [seg "L", seg "-1" (some (-1))]) = false ∧
+    getAccepts (nav exNode exVal [seg "L", seg "-1" (some (-1))]) (getM GenCfg.original exNode .ptr exVal [seg "L", seg "-1" (some (-1))]) = false ∧
+    (getM GenCfg.original exNode .ptr exVal [seg "L", seg "-1" (some (-1))] == .panic) = true ∧
     getAccepts (nav exNode exVal [seg "L", seg "5" (some 5)]) (getM GenCfg.repo exNode .ptr exVal [seg "L", seg "5" (some 5)]) = false := by
   decide
 end NonVacuity
